@@ -87,6 +87,12 @@ pub fn run(ctx: &mut Ctx) {
 
     let n = ctx.tier.pick(160_000, 1_000_000);
     ctx.run_proptest("random-any-length", &STD, n, payload_inputs(SUPPORTED.to_vec(), LenMode::Any, Prop::C14, 5, 0.2), check);
+    // the same generated payloads, a tenth of them through the sentence path (fragments included), on the
+    // alloc and no-allocator builds
+    for cfg in crate::adapter::configs().into_iter().skip(1) {
+        let n_other = ctx.tier.pick(20_000, 200_000);
+        ctx.run_proptest("random-assignments", cfg, n_other, crate::gen::payload::payload_inputs(SUPPORTED.to_vec(), crate::gen::payload::LenMode::Standard, Prop::C14, 8, 0.15), check);
+    }
     // every field inverted as a whole and bit by bit against all-zero and all-one backgrounds
     for &t in crate::refmodel::layout::SUPPORTED.iter() {
         for len in crate::refmodel::layout::standard_lengths(t) {
